@@ -206,6 +206,27 @@ func (fc *featCtx) logStep(name string, i int, more bool, err error) {
 	fc.cur.lg.Add(vt.Ev{"ev": "step", "m": name, "i": i, "more": more && err == nil, "err": err != nil})
 }
 
+// The scripted mechanisms are the symbols M1, M2, M3 (and UNK, which nobody implements) of SASL.tla. On the wire
+// and in sasl.Mechanism.Name two of them carry the channel-binding suffix of real mechanism names, which must not
+// matter to the session: it advertises, accepts and selects mechanisms by their whole name.
+var wireNames = map[string]string{"M2": "M2-PLUS", "UNK": "UNK-PLUS"}
+
+func wireName(sym string) string {
+	if w, ok := wireNames[sym]; ok {
+		return w
+	}
+	return sym
+}
+
+func symName(wire string) string {
+	for s, w := range wireNames {
+		if w == wire {
+			return s
+		}
+	}
+	return wire
+}
+
 func (fc *featCtx) scripted(name string) sasl.Mechanism {
 	step := func(n *sasl.Negotiator, i int) (bool, []byte, interface{}, error) {
 		out := StepOut{Err: true, Perm: "none"}
@@ -232,7 +253,7 @@ func (fc *featCtx) scripted(name string) sasl.Mechanism {
 		return out.More, resp, wcache{i: i + 1}, nil
 	}
 	return sasl.Mechanism{
-		Name:  name,
+		Name:  wireName(name),
 		Start: func(n *sasl.Negotiator) (bool, []byte, interface{}, error) { return step(n, 0) },
 		Next: func(n *sasl.Negotiator, challenge []byte, data interface{}) (bool, []byte, interface{}, error) {
 			i := 0
@@ -375,7 +396,7 @@ func itemBytes(role string, it Item) string {
 		if it.M == "" {
 			return fmt.Sprintf("<auth xmlns='%s'>%s</auth>", nsSASL, payloadBytes(it.P))
 		}
-		return fmt.Sprintf("<auth xmlns='%s' mechanism='%s'>%s</auth>", nsSASL, it.M, payloadBytes(it.P))
+		return fmt.Sprintf("<auth xmlns='%s' mechanism='%s'>%s</auth>", nsSASL, wireName(it.M), payloadBytes(it.P))
 	case "abort":
 		return fmt.Sprintf("<abort xmlns='%s'/>", nsSASL)
 	case "failure":
@@ -386,6 +407,14 @@ func itemBytes(role string, it Item) string {
 		return fmt.Sprintf("<failure xmlns='%s'><not-authorized/></failure>", nsSASL)
 	case "foreign":
 		return "<foo xmlns='urn:vt:foreign'>QUJD</foo>"
+	case "xsuccess": // named like the SASL element, in the namespace of another SASL profile
+		return "<success xmlns='urn:xmpp:sasl:2'>" + payloadBytes(it.P) + "</success>"
+	case "xchallenge": // no namespace of its own: the stream's content namespace
+		return "<challenge>" + payloadBytes(it.P) + "</challenge>"
+	case "xauth":
+		return fmt.Sprintf("<auth xmlns='urn:xmpp:sasl:2' mechanism='%s'>%s</auth>", wireName(it.M), payloadBytes(it.P))
+	case "xresponse":
+		return "<response>" + payloadBytes(it.P) + "</response>"
 	case "other":
 		if role == "client" {
 			return fmt.Sprintf("<auth xmlns='%s' mechanism='M1'>=</auth>", nsSASL)
@@ -454,7 +483,7 @@ func (r *run) starve() {
 			r.sentHdr = true
 			s := serverHdr + "<stream:features><mechanisms xmlns='" + nsSASL + "'>"
 			for _, m := range r.sc.Adv {
-				s += "<mechanism>" + m + "</mechanism>"
+				s += "<mechanism>" + wireName(m) + "</mechanism>"
 			}
 			r.conn.FeedString(s + "</mechanisms></stream:features>")
 			return
@@ -524,7 +553,7 @@ func (r *run) react(p []byte) {
 			case r.inMechs && t.Kind == "start" && t.Name == "mechanism":
 				r.inMech = true
 			case r.inMechs && t.Kind == "text" && r.inMech:
-				r.mechList = append(r.mechList, t.Text)
+				r.mechList = append(r.mechList, symName(t.Text))
 			case r.inMechs && t.Kind == "end" && t.Name == "mechanism":
 				r.inMech = false
 			}
@@ -533,7 +562,7 @@ func (r *run) react(p []byte) {
 			if t.Attr["xmlns"] == nsSASL {
 				kind = vt.Local(t.Name)
 			}
-			r.cur = &wrote{kind: kind, mech: t.Attr["mechanism"]}
+			r.cur = &wrote{kind: kind, mech: symName(t.Attr["mechanism"])}
 			if t.Kind == "empty" {
 				r.wroteDone()
 			}
